@@ -23,6 +23,7 @@ import (
 	"testing"
 	"testing/synctest"
 	"time"
+	"unsafe"
 )
 
 type state = int32
@@ -49,6 +50,11 @@ type Task struct {
 	picks  uint32
 	starve int // consecutive scheduling steps this task was ready but not picked
 	parkUntil int // not offered to the scheduler before this step (long preemption)
+	// the map access this task is about to perform (it sits at the scheduling
+	// point right in front of it); 0 = none
+	mapP    uintptr
+	mapW    bool
+	mapSite string
 }
 
 func (t *Task) st() state      { return t.state.Load() }
@@ -66,8 +72,8 @@ type Options struct {
 	StallMax      time.Duration
 	// ParkPermille > 0 enables long preemptions: at a scheduling point the
 	// running task is, with this probability, left out of the ready set for
-	// the next 8 / 32 / 128 / 400 scheduling steps (or until nothing else is
-	// runnable). A uniform or priority-based choice among ready tasks almost
+	// the next 8 / 32 / 128 / 400 / 4000 scheduling steps (or until nothing
+	// else is runnable). A uniform or priority-based choice among ready tasks almost
 	// never keeps one task off the CPU for the hundreds of steps another
 	// component needs to get through a narrow window.
 	ParkPermille int
@@ -76,6 +82,10 @@ type Options struct {
 	// descheduled or briefly frozen goroutine) while everything else carries on
 	// and timers fire.
 	PausePermille int
+	// MapPausePermille > 0: a task about to write a shared map pauses like a
+	// PausePermille pause with this probability (a tenth of it before a read),
+	// so that accesses driven by different timers can meet.
+	MapPausePermille int
 	Log           bool // keep the event log
 	MaxLog        int
 	RotateMaps    bool // permute canonical map iteration order from the stream
@@ -104,6 +114,10 @@ type Sim struct {
 	Forced    int    // picks forced by the fairness bound
 	Parks     int    // long preemptions injected (ParkPermille)
 	Pauses    int    // single-task pauses injected (PausePermille)
+	MapOps    int    // instrumented accesses to shared maps
+	// Races: unordered conflicting accesses to one map (see MapOp), by map expression
+	Races     map[string]string
+	maps      map[uintptr]*mapState
 	pausing   bool
 	Hash      uint64 // hash of the schedule (task name + ordinal at every branching decision)
 	seq       uint64
@@ -254,14 +268,131 @@ func Yield() {
 	}
 	t := s.cur
 	if s.opts.ParkPermille > 0 {
-		if v := s.St.Biased(5, 1000-s.opts.ParkPermille, "park"); v > 0 {
-			t.parkUntil = s.Steps + []int{0, 8, 32, 128, 400}[v]
+		if v := s.St.Biased(6, 1000-s.opts.ParkPermille, "park"); v > 0 {
+			t.parkUntil = s.Steps + []int{0, 8, 32, 128, 400, 4000}[v]
 			s.Parks++
 		}
 	}
 	t.set(stReady)
 	s.sched <- struct{}{}
 	s.park(t)
+}
+
+// MapOp is a scheduling point in front of a statement that reads or writes
+// (write) a map that more than one task can reach - simify inserts it where
+// nothing but the access itself follows (no call, no channel operation). While
+// a task sits here its access is pending: it is runnable and the access is the
+// next thing it does. If another task arrives at an access to the same map
+// while one is pending, and one of the two is a write, then both accesses are
+// enabled in the same state and nothing orders them - which is exactly Go's
+// "concurrent map read and map write" / "concurrent map writes" condition (the
+// runtime throws a fatal error when it notices one). No happens-before
+// bookkeeping is involved, so synchronisation through code the simulator does
+// not see cannot produce a false report: had it ordered the two accesses, the
+// second task could not have reached its access while the first one's is
+// still pending.
+func MapOp(m interface{}, write bool, site string) {
+	s := S
+	if s == nil || s.killed {
+		return
+	}
+	v := reflect.ValueOf(m)
+	if v.Kind() != reflect.Map || v.IsNil() {
+		return
+	}
+	t := s.cur
+	p := v.Pointer()
+	// Only a map that a second task has touched, and that was written since,
+	// can be part of a race from here on; everything else (a map still private
+	// to its creator, a map that is only read once shared - a schema) costs no
+	// scheduling point. The first write to a shared map is thereby not
+	// watched itself. The entry pins the map so that its address is not
+	// reused within the run (replays must not depend on the collector).
+	ms := s.maps[p]
+	if ms == nil {
+		if s.maps == nil {
+			s.maps = map[uintptr]*mapState{}
+		}
+		ms = &mapState{pin: v.UnsafePointer(), owner: t}
+		s.maps[p] = ms
+	}
+	if ms.owner != t {
+		ms.shared = true
+	}
+	if !ms.shared {
+		return
+	}
+	if !ms.hot {
+		if write {
+			ms.hot = true
+		}
+		return
+	}
+	s.MapOps++
+	for _, o := range s.tasks {
+		if o != t && o.mapP == p && (write || o.mapW) && o.st() != stDone {
+			s.noteRace(t, site, write, o)
+		}
+	}
+	t.mapP, t.mapW, t.mapSite = p, write, site
+	if pm := s.opts.MapPausePermille; pm > 0 && !s.pausing {
+		if !write {
+			pm /= 10
+		}
+		if v := s.St.Biased(4, 1000-pm, "map-pause"); v > 0 {
+			s.Pauses++
+			s.pausing = true
+			Sleep([]time.Duration{0, time.Millisecond, 20 * time.Millisecond, 300 * time.Millisecond}[v])
+			s.pausing = false
+			t.mapP = 0
+			return
+		}
+	}
+	Yield()
+	t.mapP = 0
+}
+
+type mapState struct {
+	pin    unsafe.Pointer
+	owner  *Task
+	shared bool // a task other than the first one has accessed it
+	hot    bool // written since it became shared
+}
+
+func accessKind(w bool) string {
+	if w {
+		return "write"
+	}
+	return "read"
+}
+
+func (s *Sim) noteRace(t *Task, site string, write bool, o *Task) {
+	// site = "<package>.<function>: <map expression>"
+	expr := func(site string) string {
+		if i := strings.Index(site, ": "); i >= 0 {
+			return site[i+2:]
+		}
+		return site
+	}
+	a, b := expr(site), expr(o.mapSite)
+	if b < a {
+		a, b = b, a
+	}
+	key := a
+	if b != a {
+		key = a + "~" + b
+	}
+	if s.Races == nil {
+		s.Races = map[string]string{}
+	}
+	if _, dup := s.Races[key]; dup {
+		return
+	}
+	d := fmt.Sprintf("task %s is about to %s a map in %s while task %s is about to %s the same map in %s; nothing orders the two accesses (Go: fatal error: concurrent map %s)",
+		t.Name, accessKind(write), site, o.Name, accessKind(o.mapW), o.mapSite,
+		map[bool]string{true: "writes", false: "read and map write"}[write && o.mapW])
+	s.Races[key] = d
+	Logf("RACE %s", d)
 }
 
 // Block releases the baton before a real blocking operation. The returned
